@@ -3,7 +3,6 @@ package wpg
 import (
 	"context"
 	"fmt"
-	"strconv"
 	"strings"
 	"testing"
 
@@ -58,17 +57,23 @@ func Quote(s string) string {
 
 func quote(s string) string {
 	if _, ok := reservedWords[strings.ToLower(s)]; ok {
-		return strconv.Quote(s)
+		return quoted(s)
 	}
 	for i, r := range s {
 		switch {
 		case r >= 'a' && r <= 'z', r == '_':
 		case r >= '0' && r <= '9' && i > 0:
 		default:
-			return strconv.Quote(s)
+			return quoted(s)
 		}
 	}
 	return s
+}
+
+// A quoted identifier ends at the next double quote;
+// a double quote inside it is written twice.
+func quoted(s string) string {
+	return `"` + strings.ReplaceAll(s, `"`, `""`) + `"`
 }
 
 // An index entry is a column name optionally followed by a direction.
